@@ -62,6 +62,8 @@ Extract == /\ pc = "extract"
            /\ pc' = "done" /\ UNCHANGED <<m, n, cpp, cdS, cdT, D, assign, dist>>
 Next == BuildMatrix \/ Assign \/ Extract
 Spec == Init /\ [][Next]_vars
+FairSpec == Spec /\ WF_vars(Next)
+Termination == <>(pc = "done")
 
 Optimal == pc = "done" => dist = WassersteinDef      \* AugmentedEqualsPartial
 CertifiesInv == pc = "done" =>
